@@ -193,7 +193,17 @@ class BaseAdapterRegistry:
     def _refresh_ro(self):
         # Recompute our resolution order from the current ``__bases__``
         # of ourselves and of all the registries above us.
-        self.ro = ro.ro(self)
+        #
+        # Lookups running in other threads get here too (a verifying
+        # registry refreshes itself when it notices a change), and a
+        # ``__bases__`` may be assigned, and its order stored, between our
+        # computing an order and our storing it.  Never leave an order
+        # behind that does not match the bases any more.
+        while True:
+            order = ro.ro(self)
+            self.ro = order
+            if ro.ro(self) == order:
+                break
 
     __bases__ = property(lambda self: self.__dict__['__bases__'],
                          lambda self, bases: self._setBases(bases),
